@@ -127,6 +127,12 @@ def reader_sequence(state, buf='packet', cls=None, recv='self'):
                 # x = Klass(buf) / self.f = Klass(buf): the object the constructor built from the buffer gets its name
                 ctor.target = target
                 continue
+            if kind == 'store' and target in ('SLICE(%s;;0)' % buf, 'SLICE(%s;0;0)' % buf):
+                # buf[:0] = octets: put in front of the buffer (for a sub-parser that expects them), like buf.insert(0, x)
+                mc = re.match(r'^C\(([0-9a-f]*)\)$', val)
+                n = len(mc.group(1)) // 2 if mc else (1 if re.match(r'^BYTE\([^()]*\)$', val) else None)
+                reads.append(Read('insert', None, '-%d' % n if n is not None else None, '%s[:0] = %s' % (buf, val), line))
+                continue
             if not mentions(val, buf):
                 # a local that holds an object built from the buffer earlier is stored into a field
                 hold = [r for r in reads if r.kind == 'delegate' and r.target is not None and r.target == val and not r.target.startswith(recv + '.')]
